@@ -379,11 +379,11 @@ func TestProp(t *testing.T) {
 
 	evid.Rapid(r, t, "func-random",
 		"rapid: random key, direction, DevAddr, boundary-biased 32-bit FCnt, data 0..255 bytes (FOpts 0..15 and the rejected 16..40); same oracle as func-all-lengths",
-		60000, 3000000, genFn, checkFn)
+		150000, 3000000, genFn, checkFn)
 
 	evid.Rapid(r, t, "methods",
 		"rapid: valid data frames (FPort absent / 0 with commands / >0, FOpts 0..15 bytes, both directions, FOpts/FRMPayload given as command values or as bytes); PHYPayload.EncryptFRMPayload == keystream of the serialised payload, Decrypt restores it and decodes port-0 commands; PHYPayload.EncryptFOpts == FOpts block with the AFCntDown variant exactly for downlink and FPort>0, DecryptFOpts restores the commands. Non-trivial: payload > 16 bytes / FOpts present.",
-		60000, 3000000, genMethod, checkMethod)
+		120000, 3000000, genMethod, checkMethod)
 
 	evid.Rapid(r, t, "outcome-contract",
 		"rapid: frames on which no transform is defined - non-data MACPayload (join-request, join-accept, rejoin, proprietary), FOpts longer than 15 bytes, and FRMPayload bytes without an FPort; every Encrypt*/Decrypt* method must return an error or apply the specification transform, never nil with untransformed data. Every case is non-trivial.",
